@@ -398,79 +398,61 @@ def _closed_members_of_unions(rep: Report, jx: Any) -> None:
     """An enum or a const that is a member of a union (a nullable enum is one) is decoded by the union's decoder, which writes the
     member's own decoder into its body.  The member's decoder rejects an unlisted value by raising (R14.3); that is worth nothing
     when the union wraps it in a handler that discards the exception and then hands the value back as it came (the pass-through
-    return for the members that need no decoding - null, string, number ...).  Read per member template, with the template's own
-    facts (has `construct`, has `check_type_for_construct`), under every assignment of the conditions of the member loop: the text
-    of one iteration is parsed as Python, and the member's construct must not sit in a `try` whose handlers swallow what it raises
-    when the pass-through return can still be reached (the unmodified-member flag is set, or further members follow that may set
-    it)."""
+    return for the members that need no decoding - null, string, number ...).  Read on the code the union's construct macro
+    generates (c10.generated_variants: once per valuation of the template conditions, macro calls and call blocks followed, `set`
+    variables read as their definitions - however the template is cut into pieces), per member template with the template's own
+    fact "has a check_type_for_construct macro": in the generated decoder function the member's construct must not sit in a `try`
+    whose handlers do not all re-raise when a return of the undecoded argument follows that `try`."""
     from jinja2 import nodes as jn
 
-    from .c04 import _tpl_stmts
-
-    rep.rule("R14.6", "for the templates that decode a closed set of values (const, enum, literal enum): with the template's own facts "
-                      "(has construct / has check_type_for_construct) the union decoder never writes the member's construct inside a try "
-                      "whose handlers discard the exception while the pass-through return for undecoded members can still be reached - "
-                      "an unlisted value would be handed back as it came instead of being rejected")
+    rep.rule("R14.6", "for the templates that decode a closed set of values (const, enum, literal enum): with the template's own fact "
+                      "(has check_type_for_construct or not) the union decoder never writes the member's construct inside a try whose "
+                      "handlers discard the exception when the pass-through return of the undecoded value follows - an unlisted value "
+                      "would be handed back as it came instead of being rejected")
     ut = jx.templates.get("property_templates/union_property.py.jinja")
     cm = ut.macros.get("construct") if ut is not None else None
     rep.require(cm, "union construct macro")
-    frs = list(tplq.frags(cm.body))
-    MEMBERS = "property.inner_properties"
-    aliases = {x.node.target for x in _tpl_stmts(cm.body, (jn.Import,)) if x.loops == (MEMBERS,) and f"{MEMBERS}[*].template" in norm_j(x.node.template)}
-    rep.require(aliases, "import of the member's property template in the union construct loop")
-    has_construct = {f"{a}.construct" for a in aliases}
-    has_check = {f"{a}.check_type_for_construct" for a in aliases}
-    flags = set()
-    for x in _tpl_stmts(cm.body, (jn.Assign,)):
-        if x.loops == (MEMBERS,) and isinstance(x.node.target, jn.NSRef) and isinstance(x.node.node, jn.Const) and x.node.node.value is True \
-                and any(tplq.implies(x, hc, False) for hc in has_construct):
-            flags.add(norm_j(x.node.target))
-    rep.require(len(flags) == 1, "the flag the union construct loop sets for members without a construct macro")
-    unmod = next(iter(flags))
-    # the pass-through: a return written after the loop exactly for unions with an undecoded member
-    passthrough = [f for f in frs if f.kind == "data" and not f.loops and re.search(r"\breturn\b", f.text) and tplq.implies(f, unmod, True)]
 
-    def member_construct(n: Any) -> bool:
+    def role(e: Any, text: str, at: int, tev: Any) -> "str | None":
+        n = e
         while isinstance(n, jn.Filter) and n.node is not None:
             n = n.node
-        return isinstance(n, jn.Call) and isinstance(n.node, jn.Getattr) and n.node.attr == "construct" and \
-            isinstance(n.node.node, jn.Name) and n.node.node.name in aliases
+        if isinstance(n, jn.Call) and isinstance(n.node, (jn.Getattr, jn.Getitem)) and \
+                (n.node.attr if isinstance(n.node, jn.Getattr) else getattr(n.node.arg, "value", None)) == "construct":
+            return "MEMBER_CONSTRUCT"
+        return None
 
-    body = [f for f in frs if f.loops == (MEMBERS,)]
-    rep.require(any(f.kind == "expr" and member_construct(f.node) for f in body), "call of the member template's construct macro in the union "
-                "construct loop")
-    atoms: list[str] = []
-    for f in body:
-        for a in tplq.guard_atoms(f):
-            if a not in atoms:
-                atoms.append(a)
-    rep.require(len(atoms) <= 8, "a member loop of the union decoder that depends on at most 8 conditions")
+    vs = generated_variants(cm, ut, jx, role, limit=10)
+    rep.require(vs, "a union construct macro that depends on at most 10 conditions")
+    rep.require(any("MEMBER_CONSTRUCT" in text for _, text in vs), "call of the member template's construct macro in the union decoder")
+    fact = re.compile(r"(\.check_type_for_construct|\[['\"]check_type_for_construct['\"]\])$")
+    check_atoms = sorted({a for env, _ in vs for a in env if fact.search(a)})
 
-    def swallowed(env: dict[str, bool]) -> "bool | None":
-        """one iteration under env, as Python: is the member's construct inside a try whose handlers do not all re-raise?
-        None: the construct is not written / the text does not parse"""
+    def swallowed_then_passed(text: str) -> bool:
         import textwrap
 
-        out = []
-        for f in body:
-            if not tplq.guard_holds(f, env):
-                continue
-            out.append(f.text if f.kind == "data" else "MEMBER_CONSTRUCT" if member_construct(f.node) else "X")
-        text = textwrap.dedent("\n".join(ln for ln in "".join(out).splitlines() if ln.strip()))
-        if "MEMBER_CONSTRUCT" not in text:
-            return None
         try:
-            fn = ast.parse("def f():\n" + "".join("    " + ln + "\n" for ln in text.splitlines())).body[0]
+            tree = ast.parse(textwrap.dedent("\n".join(ln for ln in text.splitlines() if ln.strip())))
         except SyntaxError:
             raise _Unparsed(" ".join(text.split())[:100])
-
-        def inside(tr: ast.Try) -> bool:
-            return any(isinstance(n, ast.Name) and n.id == "MEMBER_CONSTRUCT" for st in tr.body for n in ast.walk(st))
-
-        for tr in [n for n in ast.walk(fn) if isinstance(n, ast.Try) and inside(n)]:
-            for h in tr.handlers:
-                ends = PathSim(ast.FunctionDef(name="h", body=h.body, args=fn.args, decorator_list=[], lineno=1, col_offset=0)).paths()  # type: ignore[attr-defined]
-                if any(not isinstance(p_.end, ast.Raise) for p_ in ends):
+        for fn in [n for n in ast.walk(tree) if isinstance(n, ast.FunctionDef) and n.args.args]:
+            arg = fn.args.args[0].arg
+            passes = []
+            for r in ast.walk(fn):
+                if isinstance(r, ast.Return) and r.value is not None:
+                    v = r.value
+                    while isinstance(v, ast.Call) and call_name(v).rsplit(".", 1)[-1] == "cast" and len(v.args) == 2:
+                        v = v.args[1]
+                    if isinstance(v, ast.Name) and v.id == arg:
+                        passes.append(r)
+            for tr in [n for n in ast.walk(fn) if isinstance(n, ast.Try)]:
+                if not any(isinstance(n, ast.Name) and n.id == "MEMBER_CONSTRUCT" for st in tr.body for n in ast.walk(st)):
+                    continue
+                discards = False
+                for h in tr.handlers:
+                    ends = PathSim(ast.FunctionDef(name="h", body=h.body, args=fn.args, decorator_list=[], lineno=1, col_offset=0)).paths()  # type: ignore[call-overload]
+                    discards = discards or any(not isinstance(p_.end, ast.Raise) for p_ in ends)
+                if discards and any(r.lineno > (tr.end_lineno or tr.lineno) for r in passes):
                     return True
         return False
 
@@ -483,19 +465,20 @@ def _closed_members_of_unions(rep: Report, jx: Any) -> None:
         checked = "check_type_for_construct" in t.macros
         bad_env = None
         try:
-            for env in tplq.assignments(atoms):
-                if any(env.get(a) is False for a in has_construct) or any(a in env and env[a] != checked for a in has_check):
+            for env, text in vs:
+                if any(env[a] != checked for a in check_atoms) or "MEMBER_CONSTRUCT" not in text:
                     continue
-                if passthrough and swallowed(env) and (env.get(unmod) or not env.get("loop.last", True)):
-                    bad_env = {k: v for k, v in env.items() if k not in has_construct}
+                if swallowed_then_passed(text):
+                    bad_env = {k: v for k, v in env.items() if k not in check_atoms and v}
                     break
         except _Unparsed as ex:
-            rep.require(False, f"an iteration of the union decoder's member loop that reads as Python ({ex})")
+            rep.require(False, f"a generated union decoder that reads as Python ({ex})")
         rep.check(bad_env is None, "R14.6", f"union_property.py.jinja::construct::member[{short_name}]::rejection-kept",
-                  f"a union member rendered by {short_name} gets its construct inside a try whose handler discards the exception (e.g. under "
-                  f"{bad_env}) while the union's pass-through return can follow: a value the member rejects is returned as it came - a "
-                  "nullable enum / const accepts every value", where=f"{PKG}/templates/{ut.name}",
-                  lhs={"check_type_for_construct": checked, "swallowed-under": bad_env}, rhs="the member's rejection leaves the decoder, or nothing is passed through unchecked")
+                  f"a union member rendered by {short_name} ({'with' if checked else 'without'} check_type_for_construct) gets its construct "
+                  "inside a try whose handler discards the exception, and the union's pass-through return of the undecoded value follows: a "
+                  "value the member rejects is returned as it came - a nullable enum / const accepts every value",
+                  where=f"{PKG}/templates/{ut.name}", lhs={"check_type_for_construct": checked, "when": sorted(bad_env or {})},
+                  rhs="the member's rejection leaves the decoder, or nothing is passed through unchecked")
     rep.floor("closed_member_templates", n_tpl, 3)
 
 
